@@ -8,6 +8,12 @@ COMMON_TRUSTED = [
 ]
 
 CONF = {
+    "C05": {
+        "n": {"quick": 1400, "thorough": 18000},
+        "shard": 1000,
+        "trusted_base": ["go-cmp's cmp.Equal on scalar values (modelled as equality of same-kind scalars)"],
+        "assumptions": ["NaN-free scalars; independence of clones (no shared state) cannot be stated in a pure model and is decided by edit histories on the Go side"],
+    },
     "C10": {
         "n": {"quick": 1200, "thorough": 24000},
         "shard": 1000,
